@@ -1071,9 +1071,11 @@ def attached(w: World):
 # ------------------------------------------------------------------------------------------
 # the model
 # ------------------------------------------------------------------------------------------
-def model_runs(ctx, cases, cfg="current"):
-    """cases: list of (init string, [op, ...]) -> list (one per case) of lists of (out, {id: node string})"""
-    reqs = [("treest.run", cfg, init, ";".join(op_str(o) for o in ops) if ops else "-") for init, ops in cases]
+def model_runs(ctx, cases, cfg="current", table=False):
+    """cases: list of (init string, [op, ...]) -> list (one per case) of lists of (out, {id: node string});
+    table=True: every call is one run of the table machine over Generated/TreeTable.lean (treetbl.run)"""
+    reqs = [(("treetbl.run",) if table else ("treest.run", cfg)) + (init, ";".join(op_str(o) for o in ops) if ops else "-")
+            for init, ops in cases]
     res = []
     for (init, ops), ans in zip(cases, ctx.driver().batch(reqs)):
         if ans[0] != "ok":
@@ -1639,11 +1641,11 @@ def random_walk(recipe, rng, length, **kw):
 # ------------------------------------------------------------------------------------------
 # comparison with the model
 # ------------------------------------------------------------------------------------------
-def compare_with_model(ctx, traces, cfg="current", what="tree"):
+def compare_with_model(ctx, traces, cfg="current", what="tree", table=False):
     """traces: list of Trace. Reports disagreements through ctx.disagree; returns their number."""
     cases = [(t.init, t.mops) for t in traces]
     n = 0
-    for t, steps in zip(traces, model_runs(ctx, cases, cfg)):
+    for t, steps in zip(traces, model_runs(ctx, cases, cfg, table=table)):
         for k, (out, nodes) in enumerate(steps):
             src = t.msrc[k]
             if t.out_of_model is not None and src >= t.out_of_model:
